@@ -673,6 +673,27 @@ fn miri_body(thorough: bool, part: &str) {
             }
         }
     }
+    // (m3c) taiko under Relax (colour peaks all zero) on maps that open with swells / a drum roll before the first hit: the
+    // merged peak list is built section by section, all-zero sections included
+    if part == "decode" {
+        for (mode, first) in [(1u8, Kind::Spinner(900)), (0, Kind::Spinner(900)), (1, Kind::Slider5)] {
+            println!("MIRI-STEP taiko relax mode={mode} first={first:?}");
+            let o = |k, gap| Obj { kind: k, gap, pos: PosK::Far, sound: 0, col: 0 };
+            let mut objs = vec![o(first, 0), o(first, 300)];
+            objs.extend((0..6).map(|i| Obj { sound: if i % 2 == 0 { 8 } else { 0 }, ..o(Kind::Circle, 200) }));
+            let map = MapSpec::new(mode, objs).decode();
+            for bits in [128u32, 0] {
+                let d = Difficulty::new().mods(bits);
+                let a = api::difficulty(&d, &map, 1).expect("taiko reachable");
+                let st = api::strains(&d, &map, 1).expect("taiko reachable");
+                let n = api::gradual(d, &map, 1).expect("taiko reachable").count();
+                std::hint::black_box((a, st, n));
+                states += 1;
+                transitions += 3;
+                checked += 3;
+            }
+        }
+    }
     // (m3b) the niche encoding of Difficulty's clock rate
     if part == "decode" {
         for v in RATE_NICHE {
@@ -711,7 +732,7 @@ fn main() {
     }
 
     let ctx = Ctx::from_env("C11");
-    ctx.rule("universes: 'strainsvec/*' = BFS over all operation histories (push of 10 values incl. subnormal, +-0, -1, +-NaN, inf; len; iter with ExactSizeIterator::len after every step; sum; clone; retain_non_zero; sort_desc; retain_non_zero_and_sort; sorted_non_zero_iter_mut + scale by 3/4 (values stay positive: the list's invariant); into_vec; transmute_into_vec — preconditions of the unsafe / debug-asserted methods respected) to depth 6 (quick) / 7 from every 2-push prefix, against a plain Vec<f64>, key = (reference content, may-contain-zero flag); executed by this release build and by workers built with debug assertions, for the default and the raw_strains list; 'sorts' = every key array of length <= 7 over 3 keys for TandemSorter (stable, tandem, reuse), the C# introsort port, the legacy hit-object sort and LimitedQueue; 'miri' = the same StrainsVec BFS at depth 3/4, every move/box/vec/swap/drop history of gradual calculators (depth 2 on osu!+taiko / 3 on all modes; natively to depth 4 in workers built with debug assertions, where an out-of-bounds get_unchecked aborts), the same for calculators built from a Difficulty that carries passed_objects(0|1) (next / nth(1) histories), the decoder on every malformed slider path of <= 3 segments followed by a well-formed slider, the Beatmap helper methods (check_suspicion, bpm, total_break_time, attributes) on maps of 0..=3 objects of every mode, and the sorts, all interpreted by Miri (cargo +nightly miri run): any undefined behaviour fails the check (the mania map of the Miri walks has its first note left and its last note right of the playfield); 'off-playfield/unsafe-contracts' = three objects with x in {+-100000, +-600, -1, 0, 511, 512} squared x y in {-600, 192, 100000} x {circle, long object}, 4 native modes and all conversions, in workers with debug assertions and the contract monitor; non-trivial = every history");
+    ctx.rule("universes: 'strainsvec/*' = BFS over all operation histories (push of 10 values incl. subnormal, +-0, -1, +-NaN, inf; len; iter with ExactSizeIterator::len after every step; sum; clone; retain_non_zero; sort_desc; retain_non_zero_and_sort; sorted_non_zero_iter_mut + scale by 3/4 (values stay positive: the list's invariant); into_vec; transmute_into_vec — preconditions of the unsafe / debug-asserted methods respected) to depth 6 (quick) / 7 from every 2-push prefix, against a plain Vec<f64>, key = (reference content, may-contain-zero flag); executed by this release build and by workers built with debug assertions, for the default and the raw_strains list; 'sorts' = every key array of length <= 7 over 3 keys for TandemSorter (stable, tandem, reuse), the C# introsort port, the legacy hit-object sort and LimitedQueue; 'miri' = the same StrainsVec BFS at depth 3/4, every move/box/vec/swap/drop history of gradual calculators (depth 2 on osu!+taiko / 3 on all modes; natively to depth 4 in workers built with debug assertions, where an out-of-bounds get_unchecked aborts), the same for calculators built from a Difficulty that carries passed_objects(0|1) (next / nth(1) histories), the decoder on every malformed slider path of <= 3 segments followed by a well-formed slider, the Beatmap helper methods (check_suspicion, bpm, total_break_time, attributes) on maps of 0..=3 objects of every mode, taiko with and without Relax on maps that open with swells / a drum roll, and the sorts, all interpreted by Miri (cargo +nightly miri run): any undefined behaviour fails the check (the mania map of the Miri walks has its first note left and its last note right of the playfield); 'off-playfield/unsafe-contracts' = three objects with x in {+-100000, +-600, -1, 0, 511, 512} squared x y in {-600, 192, 100000} x {circle, long object}, 4 native modes and all conversions, in workers with debug assertions and the contract monitor; non-trivial = every history");
     ctx.assume("Miri is the monitor for invalid accesses; the nightly toolchain with miri is available offline");
 
     let root = PathBuf::from(std::env::var("VERIF_ROOT").unwrap_or_else(|_| "/verif".into()));
@@ -890,12 +911,12 @@ fn main() {
         for u in opts.build() {
             ctx.universe_isolated(&u.name, u.total, 20.0, 2048, |idx, l| {
                 let (spec, map) = u.decode(idx);
-                u.sample(l, idx, &spec, "difficulty, strains, gradual walk under no mod and HR+DT");
+                u.sample(l, idx, &spec, "difficulty, strains, gradual walk under no mod, HR+DT and Relax");
                 l.states(1);
                 if !map.hit_objects.is_empty() {
                     l.nontrivial();
                 }
-                for d in [Difficulty::new(), Difficulty::new().mods(80u32)] {
+                for d in [Difficulty::new(), Difficulty::new().mods(80u32), Difficulty::new().mods(128u32)] {
                     let r = std::panic::catch_unwind(std::panic::AssertUnwindSafe(|| {
                         let _ = std::hint::black_box((map.check_suspicion().is_ok(), map.bpm(), map.total_break_time()));
                         let a = api::difficulty(&d, &map, u.cfg.dst).expect("convertible");
@@ -936,7 +957,7 @@ fn main() {
                 l.sample(o);
             }
             for dst in if mode == 0 { vec![0u8, 1, 2, 3] } else { vec![mode] } {
-                for d in [Difficulty::new(), Difficulty::new().mods(80u32)] {
+                for d in [Difficulty::new(), Difficulty::new().mods(80u32), Difficulty::new().mods(128u32)] {
                     let r = std::panic::catch_unwind(std::panic::AssertUnwindSafe(|| {
                         let _ = std::hint::black_box((map.check_suspicion().is_ok(), map.bpm(), map.total_break_time()));
                         let a = api::difficulty(&d, &map, dst).expect("convertible");
